@@ -349,6 +349,9 @@ func (m *Morass) Pull(e LessInterface) error {
 			if m.AutoClear {
 				m.Clear()
 			}
+			if m.AutoClean {
+				os.RemoveAll(m.dir)
+			}
 			err = io.EOF
 		}
 	} else {
